@@ -63,7 +63,15 @@ import HexVerif.X.Sem
     reflective check `v2Check` (per procedure: `PCtx.WFS` at the lowest stack pointer - lifted to
     every activation by `wfs_shift` -, code positions, frame accounting, symbol-table facts; and
     `imageWords <= spv - 64 * Smax`).
-  Open: user calls inside operands, `val`/array declarations and formals, subscripts and strings;
+  * `C01_v3_partial`: the FULL statement, end to end, for the class `v3Ok P` (decidable): the class
+    V2 plus calls of PURE functions (outside `X.impureProcs P`; call-free actuals) anywhere in the
+    operands of right-hand sides, `return` values and the conditions of `if`/`while`
+    (`Lemmas/XcmpPExpr.lean`, `XcmpXPure.lean`).  xcmp evaluates the right operand first when it
+    needs areg, X the left one: for pure callees the orders differ in the step counter and the
+    call log only, which `Rep` ignores.  The stage-4 induction (`C01_stage4_partial`) is stated
+    over the fragment `okS5 G.pk` (`G.pk = false`: the fragment of V2).
+  Open: calls of impure procedures in operands (X leaves the order open only if the other operand
+  is constant), calls inside actuals, `val`/array declarations and formals, subscripts and strings;
   replacing the reflective checks by a proof that they always succeed.
 -/
 namespace Hex.C01
@@ -157,8 +165,9 @@ theorem IAm_refines_Isa (ds : List Asm.Dir) (img : Asm.Image) (g : IAm.Good ds i
     or`; no subscripts, strings, calls).  If the reference semantics evaluates `e` to the integer
     `v`, the code `ExprCodeGen` emits for `OptimiseExpr (ConstProp e)` satisfies the triple
     `ExecA`: located anywhere in the lowered program, started by `IAm` in any machine state that
-    represents the source state (`Rep`), with its frame need inside the frame, it runs to its end
-    with `v` in areg, the memory still represents the source state, and only frame slots
+    represents the source state (`Rep`; the I/O state is the source state's), with its frame need
+    inside the frame, it runs to its end with `v` in areg and the I/O state unchanged, the memory
+    still represents the source state, and below the frame's top only frame slots
     `[offset, size')` of the current frame were written. -/
 theorem C01_stage2_partial (K : C01s.PCtx) (wf : K.WF) (fuel : Nat) (e : X.Expr) (σ : X.St) (v : Word) (σ' : X.St)
     (hr : C01s.pureE e = true) (hev : X.eval fuel K.xc e σ = .ok (.int v) σ') :
@@ -269,7 +278,7 @@ example : ∃ img, Xcmp.compile demoV1 = .ok img := by
 /-! ### Stage (4): user procedures and functions -/
 
 /-- **`C01_stage4_partial`.**  For a program context `G` with `G.OK` (established by the check
-    `v2Check`), every fuel: (a) every statement of the stage-4 fragment (`okS4`: stage 3 plus
+    `v2Check`/`v3Check`), every fuel: (a) every statement of the stage-4 fragment (`okS5 G.pk`: stage 3 plus
     `p(args)`, `v := f(args)`, `return f(args)` with call-free actuals), compiled inside ANY
     procedure of the program and run in ANY activation within the stack budget, does what
     `X.exec` says (triple `ExecS`); (b) every procedure satisfies `CallSpec`: called with the link
@@ -316,6 +325,56 @@ example : ∃ img, Xcmp.compile demoV2 = .ok img := by
   | ok img => exact ⟨img, rfl⟩
   | error e =>
     have : (match Xcmp.compile demoV2 with | .ok _ => true | .error _ => false) = true := by decide +kernel
+    rw [h] at this
+    simp at this
+
+/-- **`C01_v3_partial`.**  The full C01 statement for the programs that satisfy the decidable
+    predicate `C01s.v3Ok`: the class of `C01_v2_partial`, and in addition calls of PURE functions
+    (functions outside `X.impureProcs P`), with call-free actuals, anywhere in the operands of
+    right-hand sides, `return` values and the conditions of `if` and `while`
+    (`fib(n - 1) + fib(n - 2)`, `while r < f(5) + 1 do ..`).  xcmp evaluates the right operand of a
+    binary operator first when it needs areg, the reference semantics the left one; for pure
+    callees both orders give the same values and differ in the step counter and the call log only,
+    which the representation invariant ignores.  Side conditions: `C01s.v3Check` (= `v2Check` on
+    the wider fragment, and the impure set is closed under the impurity analysis, `pureOkB`). -/
+theorem C01_v3_partial (P : X.Program) (inp : X.Input) (n : Nat) (β : X.Behaviour) (img : Asm.Image)
+    (hr : C01s.v3Ok P = true) :
+    X.run P inp n = .defined β →
+    Xcmp.compile P = .ok img →
+    ∃ m, Exhibits (Isa.run m (Am.boot img) (Isa.IOSt.init inp.stdin inp.files)) inp β := by
+  intro hrun hcomp
+  obtain ⟨m, code, j, s', io, h1, h2, h3, h4⟩ := C01s.v3_whole P inp n β img hr hcomp hrun
+  exact ⟨m, code, j, s', io, h1, h2, h3, h4⟩
+
+/-- `var g;
+     func fib(val n) is if n < 2 then return n else return fib(n - 1) + fib(n - 2)
+     proc main() is var r;
+     { r := fib(6) - fib(4); if ~(fib(r) = 5) then r := 0 else skip;
+       while r < fib(5) + 1 do r := r + 1; g := r; 1(g + 48, 0); 0(r) }` -/
+def demoV3 : X.Program :=
+  { globals := [.var "g"],
+    procs := [
+      { isFunc := true, name := "fib", formals := [.val "n"], locals := [],
+        body := .ite (.bin .ls (.name "n") (.num 2)) (.ret (.name "n"))
+                  (.ret (.bin .plus (.call "fib" [.bin .minus (.name "n") (.num 1)]) (.call "fib" [.bin .minus (.name "n") (.num 2)]))) },
+      { isFunc := false, name := "main", formals := [], locals := [.var "r"],
+        body := .seq [.assign "r" (.bin .minus (.call "fib" [.num 6]) (.call "fib" [.num 4])),
+                      .ite (.un .not (.bin .eq (.call "fib" [.name "r"]) (.num 5))) (.assign "r" (.num 0)) .skip,
+                      .while (.bin .ls (.name "r") (.bin .plus (.call "fib" [.num 5]) (.num 1))) (.assign "r" (.bin .plus (.name "r") (.num 1))),
+                      .assign "g" (.name "r"),
+                      .syscall 1 [.bin .plus (.name "g") (.num 48), .num 0], .syscall 0 [.name "r"]] }] }
+
+/-! Non-vacuity: `demoV3` (two calls as the operands of `+` and `-`, calls in the conditions of
+    `if` and `while`) is in the class V3 and not in V2, has a defined behaviour (one character
+    written, exit value 6) and compiles. -/
+example : C01s.v3Ok demoV3 = true := by decide +kernel
+example : C01s.v2Ok demoV3 = false := by decide +kernel
+example : behaviourIs (X.run demoV3 ⟨[], fun _ => []⟩ 2000) 6 1 = true := by decide +kernel
+example : ∃ img, Xcmp.compile demoV3 = .ok img := by
+  cases h : Xcmp.compile demoV3 with
+  | ok img => exact ⟨img, rfl⟩
+  | error e =>
+    have : (match Xcmp.compile demoV3 with | .ok _ => true | .error _ => false) = true := by decide +kernel
     rw [h] at this
     simp at this
 
